@@ -827,7 +827,10 @@ func (c *Ctx) eofUpdatePred(fn *ssa.Function, depth int) func(ssa.Instruction) b
 // integer to a narrower unsigned type keeps the value: the operand is proven to fit the target type where it is converted
 // (type interval, dominating tests, callee summaries). Not-decided conversions (deliberate truncations such as
 // byte(v >> 8) among them) are frozen per function in baselines/narrowing.json; growth is reported.
-func narrowingRule(c *Ctx, r *Result, rule string) {
+func narrowingRule(c *Ctx, r *Result, rule string) { narrowingRuleScoped(c, r, rule, nil) }
+
+// narrowingRuleScoped: the same restricted to the functions selected by scope (sharing under the property that owns them).
+func narrowingRuleScoped(c *Ctx, r *Result, rule string, scope func(string) bool) {
 	readers := c.readerSet(r)
 	per := map[string][]undecidedItem{}
 	perNeg := map[string][]undecidedItem{}
@@ -838,6 +841,9 @@ func narrowingRule(c *Ctx, r *Result, rule string) {
 		}
 		pk := shortPkg(fnPkgPath(fn))
 		if pk != "hdf5" && pk != "core" && pk != "structures" && pk != "writer" {
+			continue
+		}
+		if scope != nil && !scope(c.Name(fn)) {
 			continue
 		}
 		fb := c.FB(fn)
@@ -873,11 +879,14 @@ func narrowingRule(c *Ctx, r *Result, rule string) {
 			per[c.Name(fn)] = append(per[c.Name(fn)], undecidedItem{c.InstrPos(cv), "conversion to " + to.Name() + ": operand " + fb.linString(fb.lin(cv.X)) + " is not shown to be <= " + itoa64(thi)})
 		})
 	}
-	if n < 50 {
+	if (scope == nil && n < 50) || n < 3 {
 		r.Shortfall(c, rule, fmt.Sprintf("%s: only %d narrowing conversions examined on the writing side", rule, n))
 	}
+	r.Notef("%s: %d narrowing conversions examined", rule, n)
+	baselineReadOnly = scope != nil
 	r.ApplyBaselineFile(verifDirGlobal, "narrowing", rule, "narrowing-conversion", per)
 	r.ApplyBaselineFile(verifDirGlobal, "narrowing-neg", rule, "possibly-negative-conversion", perNeg)
+	baselineReadOnly = false
 }
 
 func init() {
